@@ -14,6 +14,15 @@ Valid(r) ==
   /\ ((r[7] = 0 /\ r[8] = 0) \/ (r[2] <= r[7] /\ r[7] <= r[8] /\ r[8] <= r[3]))
   /\ r[6] \in {"+", "-", "."}
 Decode(r) == << [i \in 1..r[10] |-> <<r[2] + r[12][i], r[2] + r[12][i] + r[11][i]>>], r[6] >>
+(* a chunk is <<offset, mirror>>: a plus-strand window starting at offset (mirror = -1), or a MINUS-strand window ending at
+   mirror (seq_chunk_to_parent(..., strand=MINUS)): chunk coordinates are then the mirror image of chromosome coordinates,
+   block [s,e) is [mirror - e, mirror - s), blocks are listed in the opposite order and the strand is the opposite one *)
+ToChunk(b, off, mir) == IF mir >= 0 THEN <<mir - b[2], mir - b[1]>> ELSE <<b[1] - off, b[2] - off>>
+ChunkBlocks(bs, off, mir) == LET cs == [i \in DOMAIN bs |-> ToChunk(bs[i], off, mir)] IN IF mir >= 0 THEN Reverse(cs) ELSE cs
+FlipSt(s) == CASE s = "+" -> "-" [] s = "-" -> "+" [] OTHER -> s
+ChunkSt(s, mir) == IF mir >= 0 THEN FlipSt(s) ELSE s
+ChunkLo(l, off, mir) == IF mir >= 0 THEN mir - MaxEnd(l) ELSE MinStart(l) - off
+ChunkHi(l, off, mir) == IF mir >= 0 THEN mir - MinStart(l) ELSE MaxEnd(l) - off
 (* the meaning of export: blocks, strand, name and CDS bounds in the chosen coordinate system (offset = chunk start) *)
 Encode(ex, cds, name, off) ==
   LET bs == [i \in DOMAIN ex[1] |-> <<ex[1][i][1] - off, ex[1][i][2] - off>>] IN
